@@ -75,8 +75,8 @@ let o_ext (more : n list) : ext_result =
   (* a sequence of " SIZE=<digits>" / " BODY=7BIT|8BITMIME" / " AUTH=<xtext>" *)
   let s = str_of_bytes more in
   let n = String.length s in
-  let rec go i seen tb bonus =
-    if i >= n then Ext_ok (n_of_int tb, nat_of_int bonus)
+  let rec go i seen tb bonus dt =
+    if i >= n then Ext_ok (n_of_int tb, nat_of_int bonus, dt)
     else if s.[i] <> ' ' then Ext_einval
     else
       let rest = String.sub s (i + 1) (n - i - 1) in
@@ -88,16 +88,16 @@ let o_ext (more : n list) : ext_result =
         if !j = 5 then Ext_einval
         else let v = int_of_string (String.sub rest 5 (!j - 5)) in
           let ni = i + 1 + !j in
-          if ni < n && s.[ni] <> ' ' then Ext_einval else go ni (0 :: seen) v (bonus + 26)
+          if ni < n && s.[ni] <> ' ' then Ext_einval else go ni (0 :: seen) v (bonus + 26) dt
       end else if starts_with up "BODY=" then begin
         if List.mem 1 seen then Ext_einval else
         let v = String.sub up 5 (String.length up - 5) in
         let l = if starts_with v "7BIT" then 4 else if starts_with v "8BITMIME" then 8 else 0 in
         if l = 0 then Ext_einval
-        else let ni = i + 1 + 5 + l in if ni < n && s.[ni] <> ' ' then Ext_einval else go ni (1 :: seen) tb bonus
+        else let ni = i + 1 + 5 + l in if ni < n && s.[ni] <> ' ' then Ext_einval else go ni (1 :: seen) tb bonus (Some (l = 8))
       end else if starts_with up "AUTH=" then Ext_einval   (* not generated *)
       else Ext_enoexec in
-  go 0 [] 0 0
+  go 0 [] 0 0 None
 
 let make_oracles cfg : oracles =
   let relay = cfg "relay" "none" and ip = cfg "ip" "v4" in
@@ -126,6 +126,7 @@ let make_oracles cfg : oracles =
         | Some _ -> QQ_ok);
     o_databytes = n_of_int (int_of_string (cfg "databytes" "0"));
     o_liphost = bytes_of_str "mail.example.org";
+    o_check2822 = (cfg "check2822" "0" = "1");
     (* the trace header is the extracted model of write_received() / spfreceived(SPF_NONE) *)
     o_trace = (fun helo from esmtp first relayclient ->
         trace_header
